@@ -55,8 +55,9 @@ CLAIMED = {
              "fresh variables, unified pairs, product bindings, operand order), that assertions bind only the present child, that "
              "binding a sum/product binds both components pairwise on every success path, that the occurs check precedes every "
              "iteration of a possibly cyclic type (and its own completed-test precedes in-progress marking), that free variables "
-             "finalise to unit, that error display is depth/length bounded, that finalize_types pins the root to 1→1, and that the "
-             "context mutex is never re-entered while held. Reports F-REC-UNIFY (input-depth recursion) as a known finding. "
+             "finalise to unit, that error display is depth/length bounded, that finalize_types pins the root to 1→1 (both ends), that a "
+             "fallible unification in an Arrow constructor returns its error (unwrap only on a still unconstrained fresh variable), "
+             "and that the context mutex is never re-entered while held. Reports F-REC-UNIFY (input-depth recursion) as a known finding. "
              "Soundness/principality of the union-bound unifier itself is not decided.",
         note=TRUST + "The typing-rule table in c04.py is transcribed from the Simplicity language definition.",
         design="3/C04"),
@@ -66,8 +67,9 @@ CLAIMED = {
              "assertion side) the ordered machine operations the interpreter performs — direct calls and deferred call-stack "
              "entries in LIFO order — with the provenance of every width argument equal the instruction template of the "
              "tech report's (non-TCO) Bit Machine; frames/cursor moves are paired; the unwinder runs the operation each deferred "
-             "entry names; exec_jet sizes frames from the jet's own source/target types. Outputs, jets' functions and Frame "
-             "cursor arithmetic are not decided.",
+             "entry names; exec_jet sizes frames from the jet's own source/target types, calls the C jet with (output, input, env) "
+             "and consumes its verdict with the right polarity (false: Err(JetFailed) without committing the output). Outputs, "
+             "jets' functions and Frame cursor arithmetic are not decided.",
         note=TRUST + "The 19-row template table in c05.py is transcribed from the Simplicity tech report (section on the Bit Machine). "
              "Assumes the machine primitives in frame.rs are correct.",
         design="3/C05"),
@@ -81,13 +83,14 @@ CLAIMED = {
         note=TRUST + "Does not decide that Frame operations stay inside the frame they are given, nor the base case for jets.",
         design="3/C07"),
     "C08": dict(
-        technique="decision-table extraction by path enumeration over enum/bool switches in MIR; dominator/provenance rules for the pruning pipeline",
+        technique="decision tables by abstract evaluation of the function over its finite input domain (16 combinators x 3 states of the choice bit; 4 seen-flag combinations), independent of how the code spells the decision; dominator/provenance rules for the pruning pipeline",
         text="Decides three structural clauses: the pruned program's commitment root is a copy (conversion copies the CMR); the "
              "decision tables that drive pruning are the specified ones (tracker: case/assertion side taken ↦ left/right set keyed "
-             "on the node's IHR, read from the node's input frame captured before the node ran, forwarded unconsumed by wrapping "
-             "trackers; prune_case: (left seen, right seen) ↦ Hide; convert: Hide ↦ assertion with the hidden child's CMR on the "
+             "on the node's IHR on every path - no early exit, no other guard -, read from the node's input frame captured before the "
+             "node ran, forwarded unconsumed by wrapping trackers; prune_case: (left seen, right seen) ↦ Hide; convert: Hide ↦ assertion with the hidden child's CMR on the "
              "hidden side); and the pipeline order (size machine, execute with the caller's tracker and return its failure, prune "
-             "with that tracker, re-finalise, prune witnesses against the finalised re-inferred target type). Behaviour "
+             "with that tracker, carry the already converted disconnected branch over, re-finalise, prune witnesses against the "
+             "finalised re-inferred target type). Behaviour "
              "preservation, anti-DoS acceptance by C and idempotence are runtime relations and are not decided.",
         note=TRUST + "A sub-agent reported a genuine clean-tree failure of this property outside the decided clauses (pruning does not always "
              "yield principal types; findings/C08_prune_not_principal_clean_tree.rs); see DESIGN.md.",
@@ -97,23 +100,28 @@ CLAIMED = {
         text="Decides, for every constructor, conversion and match arm that can write a node's commitment root, that the "
              "stored value originates only in Cmr::v of the children's roots / hidden root / entropy / word / jet (never "
              "witness, disconnected branch, cached data or inference context), that all sibling CMR algebras "
-             "(Arc<Node>, from_parts, ConstructibleCmr, Hiding) agree constructor by constructor with children in order, "
+             "(Arc<Node>, from_parts, ConstructibleCmr, Hiding) agree constructor by constructor with children in order - a "
+             "hidden result's root is computed by the algebra of the same method, never a child's root passed through -, "
              "that conversion copies the root, and that the IVs are distinct and used by the right constructor. "
              "Exact for these finite sets of sites; quantifies over all inputs because it is a dependence argument.",
         note=TRUST + "Assumes SHA-256 collision resistance for 'different structures get different roots'; the hash "
              "recipe inside Cmr::v is checked under C03.",
         design="3/C09"),
     "C10": dict(
-        technique="provenance rule over work-stack continuations (which summand's type each carries), exhaustive abstract evaluation of the has_padding expressions over {child flags} x {width orderings}, guard-polarity/dominance rule for the padded fast path",
-        text="The property is arithmetic over every type shape and bit offset and is not decided. Three of its necessary conditions "
+        technique="provenance rule over work-stack continuations (which summand's type each carries, that the loop is type-directed), linear-form comparison of the accessor offsets with the padded layout, exhaustive abstract evaluation of the has_padding expressions over {child flags} x {width orderings}, guard-polarity/dominance rule for the padded fast path",
+        text="The property is arithmetic over every type shape and bit offset and is not decided. Five of its necessary conditions "
              "are visible in the code's shape and are decided: (sumtype) in the iterative compact decoder and in Value::prune the "
              "continuation of a left injection carries the right summand's type and vice versa, the sub-task pushed with it processes "
              "the summand on the value's own side, product components are paired index by index, and the decoder reads a 0 bit as "
-             "left as CompactBitsIter writes it; (padflag) Final::has_padding, the flag that lets from_compact_bits read a padded "
-             "encoding from a compact stream, is implied by the presence of padding in all 12 combinations of child flags and width "
-             "orderings for sum and product (evaluated on the constructors' MIR; a flag that is true more often is sound and only "
-             "noted); (fastpath) the padded decoder is reached only under a false has_padding() of the same type and no other "
-             "function builds a Final. Shifts, masks, offsets, pruning's results and accessor inverses are not decided.",
+             "left as CompactBitsIter writes it; (typedir) inside their loops both take every type from the popped task, never from "
+             "the root parameter, and produce Value::unit() only where the task type's bound is Unit; (accessor) the views of "
+             "as_left/as_right/as_product sit at offset + 1 + max(wl,wr) - wl (resp. - wr) behind the right tag bit and at "
+             "(offset, offset + wl), compared as linear forms so that equivalent spellings pass; (padflag) Final::has_padding, the "
+             "flag that lets from_compact_bits read a padded encoding from a compact stream, is implied by the presence of padding in "
+             "all 12 combinations of child flags and width orderings for sum and product (a flag that is true more often is sound "
+             "and only noted); (fastpath) the padded decoder is reached only under a false has_padding() of the same type and no "
+             "other function builds a Final. Shifts and masks, copy_bits, the iterators' bit arithmetic, pruning's results and "
+             "accessor inverses in general are not decided.",
         note=TRUST + "Assumes Value::left/right build the sum their arguments name (bit-level correctness undecided).",
         design="3/C10"),
     "C11": dict(
